@@ -126,6 +126,14 @@ def seeded_pipeline(seed, kind, n):
         if st == 'local_after':
             return x.map(lambda v: v).shuffle(reshuffle=True, buffer_size=1, rng=np.random.RandomState(seed + 2))
         raise ValueError(kind)
+    if kind == 'apply_shuffle':
+        # a lazily applied ONE-TIME shuffle is drawn anew in every epoch
+        return base.apply(lambda d: d.shuffle(rng=rs), lazy=True)
+    if kind == 'apply_shuffle_batch':
+        return base.apply(lambda d: d.shuffle(rng=rs), lazy=True).map(lambda x: x + 1).batch(2)
+    if kind == 'apply_choice':
+        # a random selection drawn by the applied function itself
+        return base.apply(lambda d: d[list(rs.permutation(len(d)))], lazy=True)
     if kind == 'apply_reshuffle':
         # the per-epoch shuffle introduced by a lazily applied function
         return base.apply(lambda d: d.shuffle(reshuffle=True, rng=rs), lazy=True)
@@ -172,18 +180,25 @@ def run(rep):
         for _ in range(nseed):
             seed = rng.randrange(1 << 30)
             kind = rng.choice(['reshuffle', 'local', 'reshuffle_map_batch', 'two', 'once', 'reshuffle_tile', 'reshuffle_self_concat',
-                               'apply_reshuffle', 'apply_reshuffle_map', 'via_unbatch', 'via_filter', 'via_batch_drop', 'via_items',
+                               'apply_reshuffle', 'apply_reshuffle_map', 'apply_shuffle', 'apply_shuffle_batch', 'apply_choice', 'via_unbatch', 'via_filter', 'via_batch_drop', 'via_items',
                                'via_concat', 'via_zip', 'via_profiled', 'via_local_after'])
             n = rng.randint(1, 9)
             a = seeded_pipeline(seed, kind, n)
             b = seeded_pipeline(seed, kind, n)
             c = seeded_pipeline(seed, kind, n).copy()
             d = seeded_pipeline(seed, kind, n).prefetch(1, 2)
-            e = seeded_pipeline(seed, kind, n).prefetch(2, 2) if kind not in ('local', 'two', 'apply_reshuffle', 'apply_reshuffle_map', 'via_unbatch', 'via_filter', 'via_local_after') else None
+            e = seeded_pipeline(seed, kind, n).prefetch(2, 2) if kind not in ('local', 'two', 'apply_reshuffle', 'apply_reshuffle_map', 'apply_shuffle', 'apply_shuffle_batch', 'apply_choice', 'via_unbatch', 'via_filter', 'via_local_after') else None
             fz_src = seeded_pipeline(seed, kind, n) if kind not in ('local', 'two', 'via_local_after') else None
             frozen_hist = []
+            a_orders = []
             for epoch in range(3):
                 outs = []
+                # asking a dataset about itself between the epochs (b only) draws nothing and changes nothing
+                for ask in (lambda: b.ordered, lambda: b.indexable, lambda: repr(b), lambda: len(b)):
+                    try:
+                        ask()
+                    except Exception:  # noqa  (a stage may refuse the question)
+                        pass
                 for ds in (a, b, c, d, e):
                     if ds is None:
                         continue
@@ -204,6 +219,7 @@ def run(rep):
                                                                             'observed_in_epoch': epoch, 'view': vname}))
                                 break
                     frozen_hist.append((fzc, o1))
+                a_orders.append(outs[0])
                 bad = [i for i, o in enumerate(outs) if o != outs[0]]
                 if bad == [2] and kind in ('reshuffle_tile', 'reshuffle_self_concat'):
                     # known finding F20: copy() gives every occurrence of a repeated object its own copy
@@ -211,6 +227,16 @@ def run(rep):
                 elif bad:
                     fails.append(('seed_not_reproducible', {'kind': kind, 'seed': seed, 'n': n, 'epoch': epoch, 'orders': outs}))
                     break
+            # a dataset whose order changed from one epoch to the next does not call itself ordered
+            if len(a_orders) >= 2 and any(o != a_orders[0] for o in a_orders[1:]):
+                flags = []
+                for ds in (a, a.copy()):
+                    try:
+                        flags.append(bool(ds.ordered))
+                    except Exception:  # noqa
+                        flags.append(None)
+                if any(f is True for f in flags):
+                    fails.append(('ordered_flag_of_reshuffling_dataset', {'kind': kind, 'seed': seed, 'n': n, 'ordered': flags, 'epoch_orders': a_orders}))
             # one-time shuffle and frozen copy: one fixed order forever; reshuffling datasets report unordered
             once = seeded_pipeline(seed, 'once', n)
             if [list(once) for _ in range(3)] != [list(once)] * 3:
